@@ -91,3 +91,16 @@ def run(ctx):
     from ..engines import storekeys as SKK
     SKK.w_insertion_discipline(ctx)
     ctx.floor("W1", 3)
+    # (class, label) pairs that belong together on the way into the databases (round 10)
+    PV.a7_pairing(ctx)
+    ctx.floor("A7", 12)
+    # a rule asks its strategy the same question it is asked (round 10)
+    from ..engines import dispatch as DP5
+    DP5.d5_rule_delegates_to_the_same_question(ctx)
+    ctx.floor("D5", 4)
+    # the equivalence database merges whatever it is told is equivalent, and records two-way edges completely (round 10)
+    from ..engines import equivrules as QE10
+    QE10.k14_merge(ctx)
+    QE10.k15_edges(ctx)
+    ctx.floor("K14", 4)
+    ctx.floor("K15", 3)
